@@ -1,6 +1,6 @@
 (* C01 — hash_tree_root equals SSZ-spec merkleization for every type and value.
    Property theorems only.  H is any pair hash. *)
-Require Import RM.Base RM.Gindex RM.Tree RM.Types RM.Spec RM.ModelViews RM.MerkleProofs RM.PackProofs RM.CtorProofs.
+Require Import RM.Base RM.Gindex RM.Tree RM.Types RM.Spec RM.ModelViews RM.MerkleProofs RM.PackProofs RM.CtorProofs RM.ModelCodec RM.DeserProofs RM.SoundProofs.
 
 (* the value built by the constructor of ANY well-formed type (arbitrary nesting, any length / limit
    below 2^64) from ANY well-formed value has the specification's hash-tree-root *)
@@ -41,7 +41,22 @@ Example C01_nonvacuous :
   wf_ty t = true /\ wf t v = true.
 Proof. split; reflexivity. Qed.
 
+(* the decode route: decoding the encoding of a value yields a backing with the spec root ... *)
+Theorem C01_decode_route : forall H t v, wf_ty t = true -> wf t v = true -> (lenN (ser t v) < 2 ^ 32)%N ->
+  exists n, decode_bytes H t (ser t v) = Ok n /\ root H n = htr H t v.
+Proof.
+  intros H t v Hty Hwf Hb. destruct (roundtrip_total H t v Hty Hwf Hb) as (n & _ & Hr & _ & Hd). eauto.
+Qed.
+(* ... and ANY accepted byte string yields a backing whose root is the spec root of the value it encodes *)
+Theorem C01_decode_any : forall H t bs n, wf_ty t = true -> decode_bytes H t bs = Ok n ->
+  exists v, wf t v = true /\ bs = ser t v /\ root H n = htr H t v.
+Proof.
+  intros H t bs n Hty Hd. destruct (decode_bytes_canonical H t bs n (fun _ => None) Hty Hd) as (v & Hw & Es & _ & Hr & _). eauto.
+Qed.
+
 Print Assumptions C01_constructor.
+Print Assumptions C01_decode_route.
+Print Assumptions C01_decode_any.
 Print Assumptions C01_fill_contents.
 Print Assumptions C01_fill_length.
 Print Assumptions C01_any_representation.
